@@ -19,28 +19,29 @@
 EXTENDS Integers, Sequences
 
 CONSTANTS OpTimeout,     \* form / leave: ms (configuration)
-          UpTimeout      \* bring-up: ms (configuration)
+          UpTimeout,     \* bring-up: ms (configuration)
+          CmdTimeout     \* EZSP command timeout: ms (configuration)
 
 Matching(kind) == IF kind = "leave" THEN "down" ELSE "up"
 TimeoutOf(kind) == IF kind = "bringup" THEN UpTimeout ELSE OpTimeout
 
-OInit(kind) == [kind |-> kind, ph |-> "idle", saw |-> FALSE, res |-> <<>>, t0 |-> 0]
+OInit(kind) == [kind |-> kind, ph |-> "idle", saw |-> FALSE, res |-> <<>>, t0 |-> 0, cok |-> FALSE]
 ER(o, out) == [o |-> o, out |-> out]
 DoneE(r, v) == [o |-> "done", res |-> r, val |-> v]
 Cmd(n) == [o |-> "cmd", name |-> n]
 
 (* the operation is started: the listener / callback is registered BEFORE the command is issued *)
-StartFn(o) ==
-    CASE o.kind = "bringup" -> ER([o EXCEPT !.ph = "probing"], <<Cmd("networkState")>>)
-      [] o.kind = "form"    -> ER([o EXCEPT !.ph = "sent"], <<Cmd("formNetwork")>>)
-      [] o.kind = "leave"   -> ER([o EXCEPT !.ph = "sent"], <<Cmd("leaveNetwork")>>)
-      [] o.kind = "scan"    -> ER([o EXCEPT !.ph = "sent"], <<Cmd("startScan")>>)
+StartFn(o, now) ==
+    CASE o.kind = "bringup" -> ER([o EXCEPT !.ph = "probing", !.t0 = now], <<Cmd("networkState")>>)
+      [] o.kind = "form"    -> ER([o EXCEPT !.ph = "sent", !.t0 = now], <<Cmd("formNetwork")>>)
+      [] o.kind = "leave"   -> ER([o EXCEPT !.ph = "sent", !.t0 = now], <<Cmd("leaveNetwork")>>)
+      [] o.kind = "scan"    -> ER([o EXCEPT !.ph = "sent", !.t0 = now], <<Cmd("startScan")>>)
 
 (* answer to the bring-up's network-state query *)
-ProbeFn(o, joined) ==
+ProbeFn(o, joined, now) ==
     IF o.ph # "probing" THEN ER(o, <<>>)
     ELSE IF joined THEN ER([o EXCEPT !.ph = "done"], <<DoneE("ok", <<>>)>>)          \* already running: nothing to do
-    ELSE ER([o EXCEPT !.ph = "sent"], <<Cmd("networkInit")>>)                         \* listener registered, then the command
+    ELSE ER([o EXCEPT !.ph = "sent", !.t0 = now], <<Cmd("networkInit")>>)             \* listener registered, then the command
 
 (* the command's own response: st \in "ok" | "refuse" | "notjoined" *)
 RespFn(o, st, now) ==
@@ -67,16 +68,20 @@ CompleteFn(o, ok) ==
     IF o.kind # "scan" \/ o.ph \notin {"sent", "waiting"} THEN ER(o, <<>>)
     ELSE IF o.ph = "waiting"
     THEN ER([o EXCEPT !.ph = "done"], <<IF ok THEN DoneE("ok", o.res) ELSE DoneE("scanfail", <<>>)>>)
-    ELSE ER([o EXCEPT !.saw = TRUE, !.t0 = IF ok THEN 1 ELSE 0], <<>>)
+    ELSE ER([o EXCEPT !.saw = TRUE, !.cok = ok], <<>>)
 
 (* scan: response after an early completion *)
 RespScanEarly(o, st) ==
     IF st # "ok" THEN ER([o EXCEPT !.ph = "done"], <<DoneE("refused", <<>>)>>)
-    ELSE ER([o EXCEPT !.ph = "done"], <<IF o.t0 = 1 THEN DoneE("ok", o.res) ELSE DoneE("scanfail", <<>>)>>)
+    ELSE ER([o EXCEPT !.ph = "done"], <<IF o.cok THEN DoneE("ok", o.res) ELSE DoneE("scanfail", <<>>)>>)
 
 (* the operation timeout expires (form / leave / bring-up wait for the event) *)
 TimeoutEnabled(o) == o.kind # "scan" /\ o.ph = "waiting"
 TimeoutFn(o) == ER([o EXCEPT !.ph = "done"], <<DoneE("timeout", <<>>)>>)
+
+(* the command itself gets no response within the command timeout *)
+CmdTimeoutEnabled(o) == o.ph \in {"probing", "sent"}
+CmdTimeoutFn(o) == ER([o EXCEPT !.ph = "done"], <<DoneE("timeout", <<>>)>>)
 
 CancelFn(o) == IF o.ph \in {"idle", "done"} THEN ER(o, <<>>) ELSE ER([o EXCEPT !.ph = "done"], <<DoneE("cancelled", <<>>)>>)
 =============================================================================
